@@ -287,6 +287,12 @@ def main():
     exc_ctx_loc = "none"
     if "context.fill_cpu_context(&mut cpu);" in es:
         exc_ctx_loc = "some true" if re.search(r"context\.fill_cpu_context\(&mut cpu\);\s*MemoryWriter::alloc_with_val\(buffer, cpu\)\?\.location\(\)", es) else "some false"
+    # enumerate_threads: the name is the whole comm file with its end trimmed, nothing else
+    name_trim = "none"
+    mc = re.search(r"std::fs::read_to_string\(format!\(\"/proc/\{\}/task/\{\}/comm\", pid, tid\)\)", pdsrc)
+    mt = re.search(r"Ok\(name\)\s*=>\s*Some\(([^\n]*)\),", pdsrc)
+    if mt:
+        name_trim = "some true" if (mc and re.sub(r"\s+", "", mt.group(1)) == "name.trim_end().to_string()") else "some false"
     out = []
     out.append("/- GENERATED by gen/extract.py from /repo's source — do not edit. -/")
     out.append("namespace Mdw.Src\n")
@@ -320,6 +326,7 @@ def main():
     out.append(f"\n/-- `dump_dir_entry` sets the slot first, advances the cursor and writes the slot on every path: no early return (none = not recognisable) -/\ndef dirEntryAlwaysAdvances : Option Bool := {dir_adv}")
     out.append(f"\n/-- with a crash context the exception record's code, flags and address are the caller's signal number, code and address, unfiltered (none = not recognisable) -/\ndef exceptionFieldsVerbatim : Option Bool := {exc_verbatim}")
     out.append(f"\n/-- the fallback crash context (blamed thread not listed) is referred to by the location of its own allocation (none = not recognisable) -/\ndef exceptionContextLocOfAlloc : Option Bool := {exc_ctx_loc}")
+    out.append(f"\n/-- a thread's name is the whole content of its comm file with trailing white space trimmed, nothing else (none = not recognisable) -/\ndef threadNameTrimEndOnly : Option Bool := {name_trim}")
     out.append("\nend Mdw.Src\n")
     text = "\n".join(out)
     os.makedirs(os.path.dirname(OUT), exist_ok=True)
